@@ -1,2 +1,68 @@
-From GB Require Import Bucket BucketOpen Gc.
-Example C13_placeholder : True. Proof. exact I. Qed.
+(* C13 -- keys with equal 64-bit hashes never alias or lose each other.
+   Property theorems only; proofs live in proofs/CollideProofs.v. *)
+From Coq Require Import NArith ZArith List Bool String.
+From GB Require Import Consts Words Hash HintFile Compress Bucket BucketOpen CheckL2 RefMap Refine LogMono CollideProofs.
+Import ListNotations.
+Open Scope N_scope.
+
+(* (1) NEVER ALIAS, for ALL configurations, ALL assignments of key hashes (any groups of keys forced onto one
+   hash), ALL histories of client operations of any length (set / delete / incr / get / meta-get / flush /
+   hint dump / range resolution; restarts and GC passes are clause (3)): a get that hits returns bytes that
+   an earlier set of THAT KEY wrote (or a counter value if the key was ever the target of an incr) -- never
+   a value written under another key, however many keys share its hash. *)
+Theorem C13_never_alias : forall lc ops b k v fl,
+  forallb client_op ops = true -> run_b lc bucket0 ops = Some b ->
+  snd (l2_step lc b (OGet k)) = MHit v fl ->
+  exists o, In o ops /\ may_write o (unhex k) v.
+Proof. exact never_alias_history. Qed.
+Print Assumptions C13_never_alias.
+
+(* the state-level form: in every state whose hint buffers are accurate a hit is a record of the requested key *)
+Theorem C13_hit_is_record_of_key : forall hf b key v fl ver ts p,
+  layout_ok b -> HintAcc b ->
+  snd (bkt_get hf b key) = GHit v fl ver ts p ->
+  exists r, log_find b p = Some r /\ d_key r = key /\ v = d_val r /\ fl = client_flag (d_flag r).
+Proof. exact get_never_aliases. Qed.
+Print Assumptions C13_hit_is_record_of_key.
+
+(* (2) INDEPENDENCE is REFUTED for the code as it stands; each witness is a history over keys 'a','b','c' forced
+   onto one hash, evaluated on the model the correspondence check validates and replayed on the
+   implementation (corpus/C13/F*.json, known findings F14, F3, F15). *)
+Definition c13_lc : l2cfg := mkL2 (mkCfg 1024 512 2 true 3 false 1) [("61", 77); ("62", 77); ("63", 77)]%string 0.
+Definition c13_z : zinfo := mkZ true 0 0.
+
+(* F14: deleting a never-written key that collides with a live key answers DELETED and creates an entry for it *)
+Theorem C13_delete_absent_sibling_refuted :
+  model_run c13_lc bucket0 [OSet "61" "6131" 0 0 1 c13_z; ODel "62"; OMeta "62"; OGet "61"] =
+  [PStored; PDeleted; PMeta (-2) 0 0 0; PHit (unhex "6131") 0].
+Proof. vm_compute. reflexivity. Qed.
+Print Assumptions C13_delete_absent_sibling_refuted.
+
+(* F3: set a; set b; delete b; restart with the tree rebuilt => a, never deleted, reads as a miss *)
+Theorem C13_delete_sibling_rebuild_refuted :
+  model_run c13_lc bucket0 [OSet "61" "6131" 0 0 1 c13_z; OSet "62" "6231" 0 0 2 c13_z; ODel "62";
+                            ORestart (mkRm true [] false); OGet "61"] =
+  [PStored; PStored; PDeleted; POk; PMiss].
+Proof. vm_compute. reflexivity. Qed.
+Print Assumptions C13_delete_sibling_rebuild_refuted.
+
+(* F15: b is overwritten (b2) after a restart; after the next restart with the tree rebuilt b reads b1 again *)
+Theorem C13_stale_after_restart_refuted :
+  model_run c13_lc bucket0 [OSet "61" "6131" 0 0 1 c13_z; OSet "62" "6231" 0 0 2 c13_z; OGet "62"; OGet "63";
+                            ORestart (mkRm false [] true); OSet "62" "6232" 0 0 3 c13_z; OSet "63" "6331" 0 0 4 c13_z;
+                            OHintDump; ORestart (mkRm true [] false); OGet "62"] =
+  [PStored; PStored; PHit (unhex "6231") 0; PMiss; POk; PStored; PStored; POk; POk; PHit (unhex "6231") 0].
+Proof. vm_compute. reflexivity. Qed.
+Print Assumptions C13_stale_after_restart_refuted.
+
+(* non-vacuity of (1): colliding keys, detection of the collision, overwrite -- every get hits its own value *)
+Example C13_nonvacuous :
+  let ops := [OSet "61" "6131" 0 0 1 c13_z; OSet "62" "6231" 0 0 2 c13_z; OGet "61"; OSet "61" "6132" 0 0 3 c13_z; OFlush; OGet "62"] in
+  forallb client_op ops = true /\
+  (exists b, run_b c13_lc bucket0 ops = Some b /\ snd (l2_step c13_lc b (OGet "61")) = MHit (unhex "6132") 0) /\
+  model_run c13_lc bucket0 ops = [PStored; PStored; PHit (unhex "6131") 0; PStored; POk; PHit (unhex "6231") 0].
+Proof.
+  cbv zeta. split; [reflexivity|]. split.
+  - eexists. split; [vm_compute; reflexivity|]. vm_compute. reflexivity.
+  - vm_compute. reflexivity.
+Qed.
